@@ -113,6 +113,7 @@ def analyse(res, prop, expected, open_f):
                 out['notes'].append('finding %s (unit %s) is listed as open but its obligation now discharges' % (fid, uid))
     # --- real failures
     exp_fns = set(expected.get(info['template'], {}).get('functions', []))
+    kf_only_units, other_issue_units = set(), set()
     for i in res['issues']:
         if i['kind'] != 'verification':
             continue
@@ -124,6 +125,17 @@ def analyse(res, prop, expected, open_f):
                 info['template'], i['message'], i['site'] and i['site']['line']))
             continue
         uid = i['unit']
+        # a listed open finding may be identified by the failing call site (unit + regex on the site text)
+        kf_hit = None
+        for fid, f in open_f.items():
+            if f.get('site_regex') and f.get('unit') == uid and i.get('site') and re.search(f['site_regex'], i['site'].get('text') or ''):
+                kf_hit = (fid, f)
+        if kf_hit:
+            if prop in kf_hit[1].get('properties', []):
+                out['known'].append(dict(finding=kf_hit[0], unit=uid, what=kf_hit[1].get('what', ''), message=i['message']))
+            kf_only_units.add(uid)
+            continue
+        other_issue_units.add(uid)
         props = None
         for ent in (i.get('clause'), i.get('site')):
             if ent and ent['info'].get('tags', {}).get('props'):
@@ -157,6 +169,10 @@ def analyse(res, prop, expected, open_f):
         if kind is None:
             continue
         if kind in ('vac', 'guard') or kind.startswith('finding'):
+            continue
+        if kind == 'unit' and uid in kf_only_units and uid not in other_issue_units:
+            # fails only at the call site of a listed open finding: reported as KNOWN-FINDING, not counted as an obligation
+            out['notes'].append('unit %s is not counted: its only failing obligation is the listed open finding' % uid)
             continue
         if kind == 'unit' and prop not in unit_props.get(uid, []) and not any(
                 prop in (m.get('tags', {}).get('props', '')).split(',') for m in linemap if m.get('unit') == uid):
